@@ -13,7 +13,7 @@
    Process(ppid) / before parent.create_time()); goneb = ancestors vanishing after parents()
    appended them; o = the caller object;
    fuel = number of loop iterations allowed (None = exhausted = no termination). *)
-From PV Require Import C05.Spec C05.Lib C05.Proofs C05.ProofsSpec C05.ProofsParent C05.ProofsVanish C05.ProofsClock C05.ProofsBig C05.ProofsSource C05.PyGen C05.ProofsGen Gen.C05_Tables.
+From PV Require Import C05.Spec C05.Lib C05.Proofs C05.ProofsSpec C05.ProofsParent C05.ProofsVanish C05.ProofsClock C05.ProofsBig C05.ProofsSource C05.PyGen C05.ProofsGen C05.ProofsGenParent Gen.C05_Tables.
 
 (* children(): exactly the listed processes naming the caller as parent, never the
    caller itself, still there and not started before it, in listing order *)
@@ -368,3 +368,10 @@ Print Assumptions C05_gen_children_rec.
 Theorem C05_gen_nonneg_of_wf : forall t, wf_table t = true -> pids_nonneg t = true.
 Proof. exact nonneg_of_wf. Qed.
 Print Assumptions C05_gen_nonneg_of_wf.
+
+(* c05_parent: Process.parent() translated from the ast of the tree under check; run_parent interprets it over the model's
+   primitives (pprims_of: those of children() plus the lowest-PID expression and self.ppid()).  No hypothesis on the table. *)
+Theorem C05_gen_parent : forall t gone cache o,
+  run_parent (pprims_of t gone cache o) c05_parent = parent as_is t gone cache o.
+Proof. exact gen_parent. Qed.
+Print Assumptions C05_gen_parent.
